@@ -79,7 +79,7 @@ def worker(job):
     probes = sorted({0, 1, 2, n // 3, n // 2, n - 2, n - 1, n, n + 1, 2 * n + 3, 2**31 - 1, 2**31, 2**32, 2**63 - 2, 2**63 - 1, 2**63, 2**64, 10**30} - {-1, -2})
     calls = [("solutions", None), ("len", None), ("ambiguities", None), ("first", None), ("iter3", None)]
     for i in probes:
-        calls += [("lazy", i), ("nonlazy", i)]
+        calls += [("lazy", i), ("nonlazy", i), ("getitem", i)]
     calls += [("lazy", n - 1), ("nonlazy", n // 2), ("lazy", 0), ("len", None), ("solutions", None), ("lazy", n)]   # repeated access, after everything else
     trace = []
     for op, i in calls:
@@ -105,6 +105,8 @@ def worker(job):
                     ev["r"] = dict(ev["r"], kind="tree", tree=btree(forest.get_tree(i)))
                 elif op == "nonlazy":
                     ev["r"] = dict(ev["r"], kind="tree", tree=btree(forest.get_nonlazy_tree(i)))
+                elif op == "getitem":
+                    ev["r"] = dict(ev["r"], kind="tree", tree=btree(forest[i]))
         except IndexError:
             ev["r"] = dict(ev["r"], kind="IndexError")
         except Exception as e:  # noqa: BLE001
